@@ -15,7 +15,7 @@ RULE = ('Inputs: small generated documents of every selectable map (4010 -> 997,
         'whenever every copied value fits the acknowledgement\'s own element definitions. non-trivial = distinct acknowledgements containing >=1 AK4/IK4 with an echoed value.')
 ASSUMPTIONS = ['(d) acceptance is required only when the values copied from the input (control numbers, ids, echoed data) fit the 997/999 element definitions; otherwise only "no exception, no map-not-found"',
                'inputs for which validation itself does not complete are C07\'s business']
-REQUIRED_COUNTERS = ['inputs:ta1-requested-by-several-interchanges', 'inputs:fa-group-first', 'cli:invocations', 'cli:acks-compared', 'inputs:envelope-soup', 'acks', 'acks:997', 'acks:999', 'acks-with-echo', 'echo-with-ack-delimiter', 'reread', 'revalidated', 'revalidated:accepted']
+REQUIRED_COUNTERS = ['inputs:interchanges-of-both-versions', 'inputs:set-with-many-set-level-codes', 'inputs:ta1-requested-by-several-interchanges', 'inputs:fa-group-first', 'cli:invocations', 'cli:acks-compared', 'inputs:envelope-soup', 'acks', 'acks:997', 'acks:999', 'acks-with-echo', 'echo-with-ack-delimiter', 'reread', 'revalidated', 'revalidated:accepted']
 MIN_CASES = {'quick': 500, 'thorough': 15000}
 WATCHDOG_S = {'quick': 1200, 'thorough': 7200}
 
@@ -330,7 +330,7 @@ def run(ctx):
             continue
         if len(doc.recs) > 300:
             continue
-        fam = rng.choice(['faults', 'faults', 'hostile', 'hostile', 'many', 'missing-ctl', 'mutated', 'soup', 'fa-group-first', 'ta1-requested'])
+        fam = rng.choice(['faults', 'faults', 'hostile', 'hostile', 'many', 'missing-ctl', 'mutated', 'soup', 'fa-group-first', 'ta1-requested', 'many-set-codes', 'mixed-versions'])
         terms = ('~', '*', ':')
         kinds = [fam]
         if fam == 'faults':
@@ -345,6 +345,28 @@ def run(ctx):
             ctx.count('echo-with-ack-delimiter', nh)
         elif fam == 'many':
             doc = many_errors_one_segment(rng, doc)
+        elif fam == 'many-set-codes':
+            # one transaction set (and its group) collecting as many DIFFERENT set-level / group-level codes as the bookkeeping can produce: control
+            # number used before (23), a body finding (5), SE01 not a number and wrong (6, 4), SE02 too short and different (7, 3); GE01 wrong (5),
+            # GE02 different (4), GS06 too long ...: the AK5 / AK9 written still has no more elements than its definition
+            try:
+                doc = gen_doc.gen_document(e, rng.randrange(1 << 30), **dict(kw, n_st=rng.choice([2, 3]), n_gs=rng.choice([1, 2])))
+            except gen_doc.GenFailed:
+                continue
+            f = faults.inject(rng, doc, kind=rng.choice(['bad_date', 'too_long', 'bad_code']), tries=6)
+            doc = faults.clone(f.doc if f is not None else doc)
+            sts = [r for r in doc.recs if r.node.id == 'ST']
+            ses = [r for r in doc.recs if r.node.id == 'SE']
+            if len(sts) >= 2:
+                j = rng.randrange(1, len(sts))
+                sts[j].vals[1] = sts[j - 1].vals[1]
+                ses[j].vals = [rng.choice(['X1', 'A', '1X']), sts[j].vals[1][:2]]
+                if e['icvn'] == '00501' and len(sts[j].vals) >= 3 and rng.random() < 0.5:
+                    sts[j].vals[2] = 'X'
+            for r in doc.recs:
+                if r.node.id == 'GE' and rng.random() < 0.7:
+                    r.vals = [rng.choice(['X', '99', '']), rng.choice(['9', '12345678901', ''])]
+            ctx.count('inputs:set-with-many-set-level-codes')
         elif fam == 'missing-ctl':
             doc = faults.clone(doc)
             for r in doc.recs:
@@ -367,6 +389,21 @@ def run(ctx):
                     r.vals[13] = '1'
             text = doc.text(terms[0], terms[1], terms[2], '\n' if terms[0] != '\n' else '')
             ctx.count('inputs:ta1-requested-by-several-interchanges')
+        if fam == 'mixed-versions':
+            # interchanges of both versions in one file, either order (faults in one of them half of the time): the one acknowledgement written
+            # must be of ONE kind throughout (ISA12, GS08, 997/999) so that it can be read back
+            others = [x for x in entries if x['icvn'] != e['icvn']]
+            o = others[rng.randrange(len(others))]
+            try:
+                d2 = gen_doc.gen_document(o, rng.randrange(1 << 30), **dict(kw, n_st=1, n_gs=1))
+            except gen_doc.GenFailed:
+                continue
+            if rng.random() < 0.5:
+                f = faults.inject(rng, d2)
+                d2 = f.doc if f is not None else d2
+            parts = [doc, d2] if rng.random() < 0.5 else [d2, doc]
+            text = gen_doc.concat_docs(parts).text()
+            ctx.count('inputs:interchanges-of-both-versions')
         if fam == 'fa-group-first':
             # a functional group of acknowledgements (GS01 = FA) in front of the ordinary group(s) of the same interchange: the validator answers
             # the file as a whole, so the FA group's sets appear in the acknowledgement too
